@@ -21,23 +21,24 @@ func properties() []Property {
 	return []Property{
 		{ID: "C01", Assumptions: []string{aSummaries, aModels, aE1, aE2, "receiver strings: both spellings of the orbiter address, a mixed-case spelling, other accounts, the blocked dust collector, empty, malformed, and an arbitrary 48-byte string; an arbitrary string other than a spelling of a known account is treated as undecodable", "'all prior histories' = arbitrary prior balances of the orbiter account, arbitrary escrow balance, arbitrary pause / parameter configuration (one inductive step)"},
 			Harnesses: []HarnessSpec{
-				{Name: "H_C01_receivers", Profile: "bit", Quick: b("rcvKinds", 8, "denomKinds", 4, "memoKinds", 2, "amountKinds", 3, "intKinds", 1, "fees", 0, "priors", 1, "pauses", 0, "ptMax", 0, "feeRcpKinds", 1, "faults", 0, "earlier", 0), Covers: []string{"error-ack", "success-ack", "success-ack-to-orbiter", "success-ack-to-someone-else"}},
-				{Name: "H_C01_payloads", Profile: "bit", Quick: b("rcvKinds", 2, "denomKinds", 1, "memoKinds", 6, "amountKinds", 1, "intKinds", 5, "fees", 1, "priors", 1, "pauses", 0, "ptMax", 0, "feeRcpKinds", 3, "faults", 0, "earlier", 0), Thorough: b("rcvKinds", 2, "denomKinds", 1, "memoKinds", 6, "amountKinds", 1, "intKinds", 5, "fees", 1, "priors", 1, "pauses", 1, "ptMax", 1, "feeRcpKinds", 3, "faults", 0, "earlier", 0), Covers: []string{"error-ack", "success-ack", "success-ack-to-orbiter"}},
-				{Name: "H_C01_faults", Profile: "bit", Quick: b("rcvKinds", 2, "denomKinds", 1, "memoKinds", 1, "amountKinds", 1, "intKinds", 2, "fees", 1, "priors", 1, "pauses", 0, "ptMax", 0, "feeRcpKinds", 2, "faults", 1, "earlier", 0), Covers: []string{"error-ack", "success-ack", "success-ack-to-orbiter"}},
+				{Name: "H_C01_receivers", Profile: "bit", Quick: b("rcvKinds", 8, "denomKinds", 4, "memoKinds", 2, "amountKinds", 3, "intKinds", 1, "fees", 0, "priors", 1, "pauses", 0, "ptMax", 0, "feeRcpKinds", 1, "faults", 0, "earlier", 0, "hypVariants", 0), Covers: []string{"error-ack", "success-ack", "success-ack-to-orbiter", "success-ack-to-someone-else"}},
+				{Name: "H_C01_payloads", Profile: "bit", Quick: b("rcvKinds", 2, "denomKinds", 1, "memoKinds", 6, "amountKinds", 1, "intKinds", 5, "fees", 1, "priors", 1, "pauses", 0, "ptMax", 0, "feeRcpKinds", 3, "faults", 0, "earlier", 0, "hypVariants", 1), Thorough: b("rcvKinds", 2, "denomKinds", 1, "memoKinds", 6, "amountKinds", 1, "intKinds", 5, "fees", 1, "priors", 1, "pauses", 1, "ptMax", 1, "feeRcpKinds", 3, "faults", 0, "earlier", 0, "hypVariants", 1), Covers: []string{"error-ack", "success-ack", "success-ack-to-orbiter"}},
+				{Name: "H_C01_faults", Profile: "bit", Quick: b("rcvKinds", 2, "denomKinds", 1, "memoKinds", 1, "amountKinds", 1, "intKinds", 2, "fees", 1, "priors", 1, "pauses", 0, "ptMax", 0, "feeRcpKinds", 2, "faults", 1, "earlier", 0, "hypVariants", 0), Covers: []string{"error-ack", "success-ack", "success-ack-to-orbiter"}},
 				{Name: "H_C01_encodings", Profile: "bit", Covers: []string{"refused", "success", "orbiter-transfer-executed"}},
-				{Name: "H_C01_sequence", Profile: "bit", Quick: b("rcvKinds", 2, "denomKinds", 1, "memoKinds", 2, "amountKinds", 1, "intKinds", 2, "fees", 1, "priors", 1, "pauses", 0, "ptMax", 0, "feeRcpKinds", 1, "faults", 0, "earlier", 1), Covers: []string{"error-ack", "success-ack-to-orbiter", "after-an-earlier-transfer"}},
+				{Name: "H_C01_sequence", Profile: "bit", Quick: b("rcvKinds", 2, "denomKinds", 1, "memoKinds", 2, "amountKinds", 1, "intKinds", 2, "fees", 1, "priors", 1, "pauses", 0, "ptMax", 0, "feeRcpKinds", 1, "faults", 0, "earlier", 1, "hypVariants", 0), Covers: []string{"error-ack", "success-ack-to-orbiter", "after-an-earlier-transfer"}},
 			}},
 		{ID: "C02", Assumptions: []string{aSummaries, aModels, aE1, aE5, "ledger = ten tracked accounts (orbiter, dust collector, users, fee recipients, escrow, CCTP / warp / transfer module accounts) x four denoms; 'interleavings with other transfers' are sequential histories, covered by starting from an arbitrary ledger"},
 			Harnesses: []HarnessSpec{
-				{Name: "H_C02_conservation", Profile: "bit", Quick: b("rcvKinds", 2, "denomKinds", 1, "memoKinds", 1, "amountKinds", 1, "intKinds", 2, "fees", 2, "priors", 1, "pauses", 0, "ptMax", 0, "feeRcpKinds", 1, "faults", 0, "earlier", 0), Thorough: b("rcvKinds", 2, "denomKinds", 1, "memoKinds", 1, "amountKinds", 1, "intKinds", 4, "fees", 2, "priors", 1, "pauses", 0, "ptMax", 0, "feeRcpKinds", 2, "faults", 0, "earlier", 0), Covers: []string{"successful-orbiter-transfer", "not-a-successful-orbiter-transfer"}},
-				{Name: "H_C02_faults", Profile: "bit", Quick: b("rcvKinds", 1, "denomKinds", 1, "memoKinds", 1, "amountKinds", 1, "intKinds", 1, "fees", 1, "priors", 1, "pauses", 0, "ptMax", 0, "feeRcpKinds", 1, "faults", 1, "earlier", 0), Covers: []string{"successful-orbiter-transfer", "not-a-successful-orbiter-transfer"}},
-				{Name: "H_C02_sequence", Profile: "bit", Quick: b("rcvKinds", 1, "denomKinds", 1, "memoKinds", 1, "amountKinds", 1, "intKinds", 2, "fees", 1, "priors", 1, "pauses", 0, "ptMax", 0, "feeRcpKinds", 1, "faults", 0, "earlier", 1), Covers: []string{"successful-orbiter-transfer", "after-an-earlier-transfer"}},
+				{Name: "H_C02_conservation", Profile: "bit", Quick: b("rcvKinds", 2, "denomKinds", 1, "memoKinds", 1, "amountKinds", 1, "intKinds", 2, "fees", 2, "priors", 1, "pauses", 0, "ptMax", 0, "feeRcpKinds", 1, "faults", 0, "earlier", 0, "hypVariants", 1), Thorough: b("rcvKinds", 2, "denomKinds", 1, "memoKinds", 1, "amountKinds", 1, "intKinds", 4, "fees", 3, "priors", 1, "pauses", 0, "ptMax", 0, "feeRcpKinds", 2, "faults", 0, "earlier", 0, "hypVariants", 1), Covers: []string{"successful-orbiter-transfer", "not-a-successful-orbiter-transfer"}},
+				{Name: "H_C02_faults", Profile: "bit", Quick: b("rcvKinds", 1, "denomKinds", 1, "memoKinds", 1, "amountKinds", 1, "intKinds", 1, "fees", 1, "priors", 1, "pauses", 0, "ptMax", 0, "feeRcpKinds", 1, "faults", 1, "earlier", 0, "hypVariants", 0), Covers: []string{"successful-orbiter-transfer", "not-a-successful-orbiter-transfer"}},
+				{Name: "H_C02_sequence", Profile: "bit", Quick: b("rcvKinds", 1, "denomKinds", 1, "memoKinds", 1, "amountKinds", 1, "intKinds", 2, "fees", 1, "priors", 1, "pauses", 0, "ptMax", 0, "feeRcpKinds", 1, "faults", 0, "earlier", 1, "hypVariants", 0), Covers: []string{"successful-orbiter-transfer", "after-an-earlier-transfer"}},
 			}},
 		{ID: "C03", Assumptions: []string{aSummaries, aModels, aE1, "every fallible environment call (each bank send, the sweep, the ICS-20 application, the token query, each bridge request, each event emission) draws an independent failure bit, so all subsets of failures are covered; naturally occurring failures are the same bits of the respective model", "statistics failures are the documented exception (collections writes do not fail in the model)"},
 			Harnesses: []HarnessSpec{
-				{Name: "H_C03_faults", Profile: "bit", Quick: b("rcvKinds", 1, "denomKinds", 1, "memoKinds", 1, "amountKinds", 1, "intKinds", 2, "fees", 1, "priors", 1, "pauses", 0, "ptMax", 0, "feeRcpKinds", 2, "faults", 0, "earlier", 0), Thorough: b("rcvKinds", 2, "denomKinds", 1, "memoKinds", 1, "amountKinds", 1, "intKinds", 2, "fees", 2, "priors", 1, "pauses", 0, "ptMax", 0, "feeRcpKinds", 2, "faults", 0, "earlier", 0), Covers: []string{"some-step-failed", "error-ack", "success-ack", "success-ack-to-orbiter"}},
+				{Name: "H_C03_faults", Profile: "bit", Quick: b("rcvKinds", 1, "denomKinds", 1, "memoKinds", 1, "amountKinds", 1, "intKinds", 2, "fees", 1, "priors", 1, "pauses", 0, "ptMax", 0, "feeRcpKinds", 2, "faults", 0, "earlier", 0, "hypVariants", 0), Thorough: b("rcvKinds", 2, "denomKinds", 1, "memoKinds", 1, "amountKinds", 1, "intKinds", 2, "fees", 2, "priors", 1, "pauses", 0, "ptMax", 0, "feeRcpKinds", 2, "faults", 0, "earlier", 0, "hypVariants", 0), Covers: []string{"some-step-failed", "error-ack", "success-ack", "success-ack-to-orbiter"}},
+				{Name: "H_C03_panics", Profile: "bit", Quick: b("rcvKinds", 1, "denomKinds", 1, "memoKinds", 1, "amountKinds", 1, "intKinds", 2, "fees", 1, "priors", 1, "pauses", 0, "ptMax", 0, "feeRcpKinds", 1, "faults", 0, "earlier", 0, "hypVariants", 0), Covers: []string{"receive-aborted", "success-ack"}},
 			}},
-		{ID: "C05", Assumptions: []string{aSummaries, aModels, "the transfer attributes are those after arbitrary pre-actions: source amount A, destination amount D with 0 < D <= A (both symbolic), orbiter balance exactly D", "byte fields are arbitrary byte slices of 0..bytes bytes (bytes = 33 = one past the only length Hyperlane accepts); hook metadata from {empty, 0x, valid hex, bad hex, no prefix, odd length}", "depinject.go wiring is outside the claim (the harness mirrors it with the exported constructors)"},
+		{ID: "C05", Assumptions: []string{aSummaries, aModels, "the transfer attributes are those after arbitrary pre-actions: source amount A, destination amount D with 0 < D <= A (both symbolic), orbiter balance exactly D", "byte fields are arbitrary byte slices of 0..bytes bytes (bytes = 33 = one past the only length Hyperlane accepts); hook metadata from {empty, 0x, valid hex, bad hex, no prefix, odd length}", "of depinject.go, ProvideModule (authority resolution, keeper construction) is executed by H_C10_configured; InjectComponents (wiring of the real CCTP / warp / bank keepers) is outside the claim (the harness mirrors it with the exported constructors and environment models)"},
 			Harnesses: []HarnessSpec{
 				{Name: "H_C05_cctp", Profile: "bit", Quick: b("bytes", 33), Covers: []string{"refused", "forwarded"}},
 				{Name: "H_C05_hyperlane", Profile: "bit", Quick: b("bytes", 33, "hookSym", 0, "bigDomains", 0), Thorough: b("bytes", 33, "hookSym", 1, "bigDomains", 0), TimeoutQuick: 300, TimeoutThorough: 2400, Covers: []string{"refused", "forwarded"}},
@@ -53,21 +54,21 @@ func properties() []Property {
 			}},
 		{ID: "C07", Assumptions: []string{aSummaries, aModels, aE2, "events/state of the wrapped application itself are identical because it is the same single call with the same arguments on the same context (the application's internals are a model)", "acknowledgement, timeout, channel-close/open-confirm, SendPacket and GetAppVersion are driven on the middleware value with recording wrapped objects (H_C07_callbacks); the remaining channel handshake and upgrade callbacks are promoted from the same embedded interfaces and are not driven"},
 			Harnesses: []HarnessSpec{
-				{Name: "H_C07_packets", Profile: "bit", Quick: b("rcvKinds", 8, "denomKinds", 4, "memoKinds", 2, "amountKinds", 3, "intKinds", 1, "fees", 0, "priors", 1, "pauses", 0, "ptMax", 0, "garbage", 1, "feeRcpKinds", 1, "faults", 0, "earlier", 0), Covers: []string{"not-for-orbiter"}},
+				{Name: "H_C07_packets", Profile: "bit", Quick: b("rcvKinds", 8, "denomKinds", 4, "memoKinds", 2, "amountKinds", 3, "intKinds", 1, "fees", 0, "priors", 1, "pauses", 0, "ptMax", 0, "garbage", 1, "feeRcpKinds", 1, "faults", 0, "earlier", 0, "hypVariants", 0), Covers: []string{"not-for-orbiter"}},
 				{Name: "H_C07_channels", Profile: "bit", Covers: []string{"not-for-orbiter"}},
 				{Name: "H_C07_callbacks", Profile: "bit", Covers: []string{"callback-called"}},
 				{Name: "H_C07_sequence", Profile: "bit", Covers: []string{"not-for-orbiter", "after-an-orbiter-transfer"}},
-				{Name: "H_C07_payloads", Profile: "bit", Quick: b("rcvKinds", 4, "denomKinds", 1, "memoKinds", 6, "amountKinds", 1, "intKinds", 2, "fees", 1, "priors", 1, "pauses", 1, "ptMax", 1, "garbage", 0, "feeRcpKinds", 1, "faults", 0, "earlier", 0), Covers: []string{"not-for-orbiter"}},
+				{Name: "H_C07_payloads", Profile: "bit", Quick: b("rcvKinds", 4, "denomKinds", 1, "memoKinds", 6, "amountKinds", 1, "intKinds", 2, "fees", 1, "priors", 1, "pauses", 1, "ptMax", 1, "garbage", 0, "feeRcpKinds", 1, "faults", 0, "earlier", 0, "hypVariants", 0), Covers: []string{"not-for-orbiter"}},
 			}},
 		{ID: "C11", Assumptions: []string{aSummaries, aModels, aE1, "paired executions: the same drawn packet on two freshly wired modules whose states differ only in the coins already on the orbiter account (arbitrary amounts in the transferred denom and one other denom vs. none)", "bank send restrictions of other modules on the sweep are outside the claim"},
 			Harnesses: []HarnessSpec{
-				{Name: "H_C11_priors", Profile: "bit", Quick: b("rcvKinds", 2, "denomKinds", 1, "memoKinds", 1, "amountKinds", 1, "intKinds", 2, "fees", 1, "priors", 1, "pauses", 0, "ptMax", 1, "feeRcpKinds", 1, "faults", 0, "earlier", 0), Thorough: b("rcvKinds", 2, "denomKinds", 2, "memoKinds", 1, "amountKinds", 1, "intKinds", 2, "fees", 2, "priors", 1, "pauses", 0, "ptMax", 1, "feeRcpKinds", 1, "faults", 0, "earlier", 0), Covers: []string{"both-succeed", "both-refused"}},
-				{Name: "H_C11_sequence", Profile: "bit", Quick: b("rcvKinds", 1, "denomKinds", 1, "memoKinds", 1, "amountKinds", 1, "intKinds", 2, "fees", 1, "priors", 1, "pauses", 0, "ptMax", 0, "feeRcpKinds", 1, "faults", 0, "earlier", 1), Covers: []string{"both-succeed", "after-an-earlier-transfer"}},
+				{Name: "H_C11_priors", Profile: "bit", Quick: b("rcvKinds", 2, "denomKinds", 1, "memoKinds", 1, "amountKinds", 1, "intKinds", 2, "fees", 1, "priors", 1, "pauses", 0, "ptMax", 1, "feeRcpKinds", 1, "faults", 0, "earlier", 0, "hypVariants", 0), Thorough: b("rcvKinds", 2, "denomKinds", 2, "memoKinds", 1, "amountKinds", 1, "intKinds", 2, "fees", 2, "priors", 1, "pauses", 0, "ptMax", 1, "feeRcpKinds", 1, "faults", 0, "earlier", 0, "hypVariants", 0), Covers: []string{"both-succeed", "both-refused"}},
+				{Name: "H_C11_sequence", Profile: "bit", Quick: b("rcvKinds", 1, "denomKinds", 1, "memoKinds", 1, "amountKinds", 1, "intKinds", 2, "fees", 1, "priors", 1, "pauses", 0, "ptMax", 0, "feeRcpKinds", 1, "faults", 0, "earlier", 1, "hypVariants", 0), Covers: []string{"both-succeed", "after-an-earlier-transfer"}},
 			}},
 		{ID: "C04", Assumptions: []string{aSummaries, aModels, "math.NewIntFromString on a concrete string is computed with math/big (SetString base 0, 256-bit limit) exactly as cosmossdk.io/math does; fixed fee amounts are the decimal rendering of an arbitrary symbolic Int or one of a few non-numbers", "fee recipients are concrete strings (two valid accounts, possibly repeated, and malformed ones): bech32 decoding itself is the SDK's"},
 			Harnesses: []HarnessSpec{
-				{Name: "H_C04_fee", Profile: "bit", Quick: b("entries", 2, "rcpKinds", 3, "feeKinds", 4), Thorough: b("entries", 2, "rcpKinds", 5, "feeKinds", 4), Covers: []string{"refused", "accepted"}, TimeoutThorough: 2400},
-				{Name: "H_C04_fee3", Profile: "bit", ThoroughOnly: true, Thorough: b("entries", 3, "rcpKinds", 2, "feeKinds", 3), Covers: []string{"refused", "accepted"}, TimeoutThorough: 2400},
+				{Name: "H_C04_fee", Profile: "bit", Quick: b("entries", 2, "rcpKinds", 3, "feeKinds", 4, "minEntries", 0, "laterFixed", 0), Thorough: b("entries", 2, "rcpKinds", 5, "feeKinds", 4, "minEntries", 0, "laterFixed", 0), Covers: []string{"refused", "accepted"}, TimeoutThorough: 2400},
+				{Name: "H_C04_fee3", Profile: "bit", Quick: b("entries", 3, "minEntries", 3, "rcpKinds", 2, "feeKinds", 2, "laterFixed", 1), Thorough: b("entries", 3, "minEntries", 0, "rcpKinds", 2, "feeKinds", 3, "laterFixed", 0), Covers: []string{"refused", "accepted"}, TimeoutThorough: 2400},
 				{Name: "H_C04_count", Profile: "bit", Covers: []string{"refused", "accepted"}},
 				{Name: "H_C04_compute_amount", Profile: "bit", Covers: []string{"overflow", "non-positive", "positive"}},
 			}},
@@ -75,16 +76,17 @@ func properties() []Property {
 			Harnesses: []HarnessSpec{
 				{Name: "H_C08_step", Profile: "bit", Quick: b("strlen", 1, "prePairs", 1, "batch", 2), Thorough: b("strlen", 2, "prePairs", 1, "batch", 2), Covers: []string{"pre-state-built", "message-accepted", "message-refused"}, TimeoutQuick: 240},
 				{Name: "H_C08_enforce", Profile: "bit", Quick: b("strlen", 2, "prePairs", 1), Thorough: b("strlen", 3, "prePairs", 2), Covers: []string{"pre-state-built", "probe-paused", "probe-not-paused"}},
-				{Name: "H_C08_history", Profile: "bit", Quick: b("strlen", 1, "steps", 2, "batch", 1), Thorough: b("strlen", 1, "steps", 2, "batch", 2), Covers: []string{"message-accepted", "message-refused", "probe-paused", "probe-not-paused"}, TimeoutQuick: 240},
+				{Name: "H_C08_history", Profile: "bit", Quick: b("strlen", 1, "steps", 2, "batch", 1), Thorough: b("strlen", 1, "steps", 3, "batch", 1), Covers: []string{"message-accepted", "message-refused", "probe-paused", "probe-not-paused"}, TimeoutQuick: 240},
 				{Name: "H_C08_batch_limit", Profile: "bit"},
 			}},
 		{ID: "C09", Assumptions: []string{aSummaries, aModels, aE1, "pre-state: any subset of {FEE, SWAP} paused; a recording stub controller is registered under ACTION_SWAP so that both identifiers are routable"},
 			Harnesses: []HarnessSpec{
-				{Name: "H_C09_actions", Profile: "bit", Quick: b("steps", 2), Thorough: b("steps", 3), Covers: []string{"message-accepted", "message-refused", "probe-with-paused-action", "probe-unaffected"}},
+				{Name: "H_C09_actions", Profile: "bit", Quick: b("steps", 2), Thorough: b("steps", 4), Covers: []string{"message-accepted", "message-refused", "probe-with-paused-action", "probe-unaffected"}},
 			}},
 		{ID: "C10", Assumptions: []string{aSummaries, aModels, "the servers are the ones keeper.RegisterMsgServers registers on a recording configurator", "signer: any string of at most signerlen bytes other than the authority's bech32 string in lower or upper case (both spellings denote the authority account)", "state unchanged = identical content of every orbiter collection (natively: identical key/value content of the orbiter store), no event, no bridge request, no bank movement"},
 			Harnesses: []HarnessSpec{
 				{Name: "H_C10_unauthorized", Profile: "bit", RPCCoverage: true, Quick: b("signerlen", 50), Thorough: b("signerlen", 64), Covers: []string{"authority-succeeds-with-valid-content", "rpc:forwarder.PauseProtocol", "rpc:forwarder.UnpauseProtocol", "rpc:forwarder.PauseCrossChains", "rpc:forwarder.UnpauseCrossChains", "rpc:forwarder.ReplaceDepositForBurn", "rpc:executor.PauseAction", "rpc:executor.UnpauseAction", "rpc:adapter.UpdateParams"}},
+				{Name: "H_C10_configured", Profile: "bit", Covers: []string{"configured-authority-signs", "someone-else-signs"}},
 			}},
 		{ID: "C12", Assumptions: []string{aSummaries, aModels, aE3, "one inductive step from arbitrary pre-existing statistics: up to preEntries amount entries and preEntries count entries whose keys coincide with the new transfer's keys or differ in one component (source, destination protocol, destination counterparty, denom)", "pre-state invariant (bound): totals < 10^70, amounts < 10^60, counts < 2^64-1 — the statistics overflow paths (deliberately swallowed by DispatchPayload) are outside the claim", "denomination change is exercised with a harness controller registered under ACTION_SWAP on the internal route"},
 			Harnesses: []HarnessSpec{
@@ -113,9 +115,9 @@ func properties() []Property {
 			}},
 		{ID: "C16", Assumptions: []string{aSummaries, aModels, "denominations are built from 1..segments '/'-free segments (the identifiers transfer / channel-7 / channel-8 / uusdc or arbitrary bytes of length 0..seglen), empty segments allowed; a denomination with more separators than that is outside the claim", "source port/channel: transfer/channel-7 or transfer/channel-8", "reference = the ICS-20 application's own derivation written with the same ibc-go helpers (ReceiverChainIsSource, GetDenomPrefix, ParseDenomTrace); channel identifier syntax is ibc-go's (summarised as a byte predicate)"},
 			Harnesses: []HarnessSpec{
-				{Name: "H_C16_denom", Profile: "bit", Quick: b("segments", 5, "seglen", 1), Thorough: b("segments", 6, "seglen", 1), Covers: []string{"accepted", "refused", "refused-not-returning"}, TimeoutThorough: 2400},
+				{Name: "H_C16_denom", Profile: "bit", Quick: b("segments", 5, "seglen", 1), Thorough: b("segments", 7, "seglen", 1), Covers: []string{"accepted", "refused", "refused-not-returning"}, TimeoutThorough: 2400},
 				{Name: "H_C16_ports", Profile: "bit", Covers: []string{"accepted", "refused"}},
-				{Name: "H_C16_credit", Profile: "bit", Quick: b("rcvKinds", 2, "denomKinds", 4, "memoKinds", 1, "amountKinds", 1, "intKinds", 1, "fees", 1, "priors", 0, "pauses", 0, "ptMax", 0, "feeRcpKinds", 1, "faults", 0, "earlier", 0), Covers: []string{"accepted", "not-accepted"}},
+				{Name: "H_C16_credit", Profile: "bit", Quick: b("rcvKinds", 2, "denomKinds", 4, "memoKinds", 1, "amountKinds", 1, "intKinds", 1, "fees", 1, "priors", 1, "pauses", 0, "ptMax", 0, "feeRcpKinds", 1, "faults", 0, "earlier", 0, "hypVariants", 1), Covers: []string{"accepted", "not-accepted"}},
 			}},
 		{ID: "C17", Assumptions: []string{aSummaries, aModels, aE3, "the collections summary includes the key codec's refusal of 0x00 in non-terminal string key components", "genesis lists of at most list / entries elements, counterparty strings of at most strlen bytes, protocol / action ids any int32; JSON (un)marshalling of the genesis document and module.go glue are outside the claim"},
 			Harnesses: []HarnessSpec{
@@ -124,10 +126,11 @@ func properties() []Property {
 				{Name: "H_C17_adapter", Profile: "bit", Covers: []string{"genesis-accepted", "genesis-initialised"}},
 				{Name: "H_C17_roundtrip", Profile: "bit", Quick: b("steps", 2, "strlen", 1), Thorough: b("steps", 2, "strlen", 2), Covers: []string{"re-initialised"}, TimeoutQuick: 300},
 				{Name: "H_C17_dispatcher", Profile: "bit", Quick: b("entries", 1, "strlen", 1, "denomlen", 3), Thorough: b("entries", 1, "strlen", 2, "denomlen", 4), TimeoutQuick: 300, Covers: []string{"genesis-rejected", "genesis-accepted", "genesis-initialised"}},
+				{Name: "H_C17_boundary", Profile: "bit", Covers: []string{"genesis-rejected", "genesis-accepted"}},
 			}},
 		{ID: "C18", Assumptions: []string{aSummaries, aModels, aE1, "the passthrough payload is an all-zero byte slice whose LENGTH is symbolic in [0, maxlen] (the hook reads only len)"},
 			Harnesses: []HarnessSpec{
-				{Name: "H_C18_limit", Profile: "bit", Quick: b("updates", 2, "maxlen", 70000), Thorough: b("updates", 3, "maxlen", 5000000), Covers: []string{"over-limit", "within-limit", "params-unreadable"}},
+				{Name: "H_C18_limit", Profile: "bit", Quick: b("updates", 2, "maxlen", 70000), Thorough: b("updates", 4, "maxlen", 5000000), Covers: []string{"over-limit", "within-limit", "params-unreadable"}},
 			}},
 		{ID: "C20", Assumptions: []string{aSummaries, "strconv.Atoi/ParseInt/ParseUint, strings.Index are executed from their SSA bodies, not summarised", "channeltypes.IsValidChannelID is summarised as the byte predicate ^channel-[0-9]{1,20}$ with value <= 2^64-1 (ibc-go v8.6.1 ParseChannelSequence)"},
 			Harnesses: []HarnessSpec{
@@ -141,6 +144,7 @@ func properties() []Property {
 				{Name: "H_C20_roundtrip_internal", Profile: "bit", Quick: b("strlen", 12), Thorough: b("strlen", 33), Covers: []string{"valid", "invalid"}},
 				{Name: "H_C20_distinct", Profile: "bit", Quick: b("strlen", 3), Thorough: b("strlen", 5), Covers: []string{"both-valid", "invalid"}},
 				{Name: "H_C20_parse_sound", Profile: "arith", Quick: b("idlen", 8), Thorough: b("idlen", 12), Covers: []string{"parsed", "refused"}},
+				{Name: "H_C20_entrypoints", Profile: "bit", Quick: b("strlen", 4), Thorough: b("strlen", 6), Covers: []string{"accepted", "rejected"}},
 			}},
 	}
 }
